@@ -193,7 +193,7 @@ void __gmpq_set_d(mpq_ptr a, double d) { tok_use(&a->_mp_num); NUM(a) = qsv_nond
 void __gmpq_set_f(mpq_ptr a, mpf_srcptr f) { tok_use(&a->_mp_num); NUM(a) = qsv_nondet_payload(); DEN(a) = 1; }
 int __gmpq_set_str(mpq_ptr a, const char *s, int base) { NUM(a) = qsv_nondet_payload(); DEN(a) = 1; return qsv_nondet_payload() ? -1 : 0; }
 char *__gmpq_get_str(char *s, int base, mpq_srcptr a)
-{ if (!s) { s = malloc(2); if (!s) return 0; } s[0] = '0'; s[1] = 0; return s; }
+{ if (!s) { s = malloc(2); if (!s) return 0; } s[0] = (char) (64 + (NUM(a) & 31)); s[1] = 0; return s; }	/* one character coding the payload (harnesses check WHICH number was printed) */
 
 /* ------------------------------------------------------------------ mpz (value in _mp_size) */
 void __gmpz_init(mpz_ptr z) { z->_mp_size = 0; tok_init(z); }
